@@ -83,3 +83,134 @@ def rebase_sched(script, start):
         else:
             out[k] = {kk: fix(vv) for kk, vv in v.items()}
     return out
+
+
+# ------------------------------------------------------------------------------------------------ dataflow programs
+def refs_of(stmt):
+    """ids of statements in the same scope that `stmt` reads (for ordering)."""
+    out = []
+
+    def ref(r):
+        if isinstance(r, str):
+            out.append(r)
+        elif isinstance(r, dict) and "r" in r:
+            out.append(r["r"])
+    for r in stmt.get("ins", []):
+        ref(r)
+    for k in ("src", "fb", "of", "node", "on"):
+        if k in stmt:
+            ref(stmt[k])
+    if stmt.get("op") == "bind":
+        out.append(stmt["d"])
+    if stmt.get("op") == "op":
+        for a in stmt.get("args", []):
+            if "ts" in a:
+                ref(a["ts"])
+    return out
+
+
+def topo_order(stmts, priority):
+    """a topological order of `stmts` (deps first) choosing, among ready statements, the one with the smallest
+    priority value; `priority` is a list of numbers, one per statement."""
+    ids = {s["id"]: i for i, s in enumerate(stmts) if "id" in s}
+    deps = []
+    for s in stmts:
+        deps.append({ids[r] for r in refs_of(s) if r in ids})
+    done, order = set(), []
+    n = len(stmts)
+    while len(order) < n:
+        ready = [i for i in range(n) if i not in done and deps[i] <= done]
+        if not ready:
+            raise ValueError("cycle in statement dependencies")
+        i = min(ready, key=lambda k: priority[k])
+        done.add(i)
+        order.append(i)
+    return [stmts[i] for i in order]
+
+
+@st.composite
+def permuted(draw, stmts):
+    pr = draw(st.permutations(list(range(len(stmts)))))
+    return topo_order(stmts, pr)
+
+
+@st.composite
+def dataflow(draw, start, horizon, max_src=3, max_nodes=7, structs=True, subs=True, delayed=True, max_depth=2, big=False):
+    """A random DAG over scripted sources and logging compute nodes. Returns (prog, info) where info lists, for the
+    oracle, who reads whom: info["reads"] = [(consumer_label, input_index, producer_label)] for plain TS[int] edges."""
+    end = start + horizon
+    stmts, subsd = [], {}
+    ports = {}      # id -> schema
+    n_src = draw(st.integers(1, max_src))
+    # sources tick in overlapping subsets: draw a small pool of times and let each source take a subset
+    pool = draw(time_set(start, end - 1, 1, 8 if big else 5))
+    for i in range(n_src):
+        times = [t for t in pool if draw(st.integers(0, 2)) != 0] or [pool[0]]
+        stmts.append({"id": f"s{i}", "op": "src", "schema": "TS[int]",
+                      "script": [[t, [{"k": "set", "v": draw(st.integers(-9, 9))}]] for t in times]})
+        ports[f"s{i}"] = "TS[int]"
+    n_nodes = draw(st.integers(1, max_nodes))
+    for i in range(n_nodes):
+        kind = draw(st.sampled_from(["node"] * 6 + (["struct"] if structs else []) + (["sub"] * 2 if subs else [])))
+        int_ports = [p for p, s in ports.items() if s == "TS[int]"]
+        if kind == "node":
+            cand = list(ports)
+            nin = draw(st.integers(1, min(3, len(cand))))
+            ins = [draw(st.sampled_from(cand)) for _ in range(nin)]
+            stmts.append({"id": f"n{i}", "op": "node", "ins": ins, "out": "TS[int]", "fn": draw(st.sampled_from(["sum", "sum", "acc"])),
+                          "coef": [draw(st.integers(1, 3)) for _ in ins], "bias": draw(st.integers(0, 5))})
+            ports[f"n{i}"] = "TS[int]"
+        elif kind == "struct":
+            k = draw(st.integers(1, 3))
+            ins = [draw(st.sampled_from(int_ports)) for _ in range(k)]
+            if draw(st.booleans()):
+                schema = f"TSL[TS[int],{k}]"
+            else:
+                schema = "TSB[" + ",".join(f"f{j}:TS[int]" for j in range(k)) + "]"
+            stmts.append({"id": f"n{i}", "op": "struct", "schema": schema, "ins": ins})
+            ports[f"n{i}"] = schema
+        else:
+            # sub-program: 1-2 int params, a small internal DAG, inlined or nested to some depth
+            npar = draw(st.integers(1, 2))
+            body, bports = [], [{"arg": j} for j in range(npar)]
+            for j in range(draw(st.integers(1, 3))):
+                nin = draw(st.integers(1, min(2, len(bports))))
+                bins = [draw(st.sampled_from(bports)) for _ in range(nin)]
+                body.append({"id": f"b{j}", "op": "node", "ins": bins, "out": "TS[int]", "fn": draw(st.sampled_from(["sum", "acc"])),
+                             "coef": [draw(st.integers(1, 3)) for _ in bins], "bias": draw(st.integers(0, 5))})
+                bports.append(f"b{j}")
+            name = f"g{i}"
+            subsd[name] = {"params": ["TS[int]"] * npar, "out": "TS[int]", "stmts": body, "ret": f"b{len(body) - 1}"}
+            depth = draw(st.integers(0, max_depth))
+            top = name
+            for d in range(1, depth):
+                wn = f"{name}w{d}"
+                subsd[wn] = {"params": ["TS[int]"] * npar, "out": "TS[int]",
+                             "stmts": [{"id": "inner", "op": "nested", "sub": top, "ins": [{"arg": j} for j in range(npar)]}], "ret": "inner"}
+                top = wn
+            ins = [draw(st.sampled_from(int_ports)) for _ in range(npar)]
+            stmts.append({"id": f"n{i}", "op": "inline" if depth == 0 else "nested", "sub": top, "ins": ins})
+            ports[f"n{i}"] = "TS[int]"
+    # recorder sinks on a few ports
+    int_ports = [p for p, s in ports.items() if s == "TS[int]"]
+    for j in range(draw(st.integers(1, 2))):
+        stmts.append({"id": f"r{j}", "op": "node", "ins": [draw(st.sampled_from(list(ports)))], "deep": True})
+    # explicit rank dependency between two unrelated compute nodes
+    # delayed bindings: rewire some consumer inputs through a delayed port so the consumer can be wired first
+    if delayed:
+        k = 0
+        for s in list(stmts):
+            if s["op"] == "node" and s.get("ins") and draw(st.integers(0, 5)) == 0:
+                j = draw(st.integers(0, len(s["ins"]) - 1))
+                src = s["ins"][j]
+                if isinstance(src, str) and ports.get(src):
+                    did = f"d{k}"
+                    k += 1
+                    stmts.append({"id": did, "op": "delayed", "schema": ports[src]})
+                    stmts.append({"id": did + "b", "op": "bind", "d": did, "src": src})
+                    s["ins"] = list(s["ins"])
+                    s["ins"][j] = did
+    prog = {"start": start, "end": end, "stmts": stmts}
+    if subsd:
+        prog["subs"] = subsd
+    return prog
